@@ -333,16 +333,35 @@ class Ops(object):
                 a, b, ca, cb = b, a, cb, ca
             if cb is not None and cb >= 0 and (cb & (cb + 1)) == 0:
                 return a - (a % (cb + 1)) + cb
+            if cb is not None and cb > 0 and (cb & (cb - 1)) == 0:
+                # a | 2^k : set bit k (exact for any integer a)
+                a = to_z3(a)
+                return z3.If((a / cb) % 2 == 0, a + cb, a)
             # disjoint-bits or: x | (c << s) == x + c*2^s when x < 2^s ; requested explicitly
             r = self.try_disjoint_or(a, b, node)
             if r is not None:
                 return r
             raise OutsideSubset("bitwise or with non-mask operand", node)
         if isinstance(op, ast.BitXor):
+            if cb == -1:
+                return -to_z3(a) - 1          # x ^ ~0 == ~x
+            if ca == -1:
+                return -to_z3(b) - 1
             raise OutsideSubset("xor on mathematical ints (use bounded-int mode)", node)
         raise OutsideSubset("bit operation", node)
 
     def try_disjoint_or(self, a, b, node):
+        """x | (c * 2^s) == x + c * 2^s when 0 <= x < 2^s (bits disjoint); the
+        side condition becomes an obligation."""
+        from .interp import Interp
+        for x, y in ((a, b), (b, a)):
+            if is_z3(y) and z3.is_mul(y):
+                for ch in y.children():
+                    if z3.is_app(ch) and ch.decl().name() == "pow2":
+                        p = ch
+                        self.oblige("no-wrap", "or-disjoint", z3.And(to_z3(x) >= 0, to_z3(x) < p),
+                                    note="x | (c << s) encoded as x + c*2^s needs 0 <= x < 2^s")
+                        return to_z3(x) + y
         return None
 
     def bvarith(self, op, a, b, node):
